@@ -193,6 +193,7 @@ DoReset(ev) == stores' = EmptyFn /\ files' = EmptyFn /\ bad' = <<>>
 
 DoNewFile(ev) == NewFile(ev.f) /\ Report(<<>>)
 DoNewMem(ev) == NewMemStore(ev.s) /\ Report(<<>>)
+DoPrivate(ev) == MakePrivate(ev.s, ev.p, ev.c) /\ Report(<<>>)
 
 \* reads issued by an open must lie inside the final root record (C19)
 OpenReadsChk(ev) ==
@@ -242,6 +243,13 @@ ReadChk(ev, want, cat) ==
   \o (IF ev.wv THEN <<>> ELSE KeyOnlyChk(ev))
 
 DoGet(ev) == Stay /\ Report(ReadChk(ev, Lookup(Items(ev.s, ev.c), ev.k), "C01:get"))
+\* Get() / GetAny(): the value alone (nil = -1 when the key is absent)
+DoGetVal(ev) ==
+  LET hit == Lookup(Items(ev.s, ev.c), ev.k)
+      want == IF hit = <<>> THEN <<-1, 0>> ELSE <<hit[1].v, hit[1].vl>>
+  IN Stay /\ Report(ErrChk(ev, FALSE)
+                    \o (IF ev.err THEN <<>> ELSE Chk(<<ev.v, ev.vl>> = want, CatFor(ev.s, "C01:get"), want, <<ev.v, ev.vl>>))
+                    \o ReadPathChk(ev))
 DoMin(ev) == Stay /\ Report(ReadChk(ev, MinOf(Items(ev.s, ev.c)), "C01:min"))
 DoMax(ev) == Stay /\ Report(ReadChk(ev, MaxOf(Items(ev.s, ev.c)), "C01:max"))
 DoExist(ev) == Stay /\ Report(Chk(ev.res = Has(Items(ev.s, ev.c), ev.k), CatFor(ev.s, "C01:exist"),
@@ -440,6 +448,8 @@ Step ==
        [] ev.e = "Exist" -> DoExist(ev)
        [] ev.e = "Totals" -> DoTotals(ev)
        [] ev.e = "Len" -> DoLen(ev)
+       [] ev.e = "GetVal" -> DoGetVal(ev)
+       [] ev.e = "Private" -> DoPrivate(ev)
        [] ev.e = "Visit" -> DoVisit(ev)
        [] ev.e = "Enum" -> DoEnum(ev)
        [] ev.e = "Flush" -> DoFlush(ev)
